@@ -4,6 +4,7 @@ package dtls
 //symgo:param NCID quick=2 thorough=4
 //symgo:param NREC quick=3 thorough=4
 //symgo:param NARB quick=8 thorough=14
+//symgo:param NARB13 quick=2 thorough=10
 //symgo:outside datagrams longer than the stated bounds; DTLS 1.3 datagrams that start with a plaintext record followed by a CID-carrying ciphertext record (no endpoint produces them towards a listener)
 
 import (
@@ -183,14 +184,14 @@ func zzRoute13WellFormed() {
 }
 
 // Listener routing key, DTLS 1.3, arbitrary bytes after a unified-header first byte: datagrams of
-// 1..4+NCID+16+NARB bytes, CID size 0..NCID. Proved: no panic; a returned key has exactly `size` bytes and,
+// 1..4+NCID+16+NARB13 bytes, CID size 0..NCID. Proved: no panic; a returned key has exactly `size` bytes and,
 // when the first record has the C bit, equals the bytes that follow the first header byte (a datagram is
 // never attributed to an ID it does not carry); without a configured CID size no DTLS 1.3 record yields a key.
 //
 //symgo:entry covers=arb13_key,arb13_nokey
 func zzRoute13Arbitrary() {
 	size := zzsymChoice("cid_size", zzsymParam("NCID")+1)
-	n := 1 + zzsymChoice("len", 4+zzsymParam("NCID")+16+zzsymParam("NARB"))
+	n := 1 + zzsymChoice("len", 4+zzsymParam("NCID")+16+zzsymParam("NARB13"))
 	d := zzsymBytes("d", n)
 	zzsymAssume(d[0]&0xe0 == 0x20)
 	id, ok := cidDatagramRouter(size)(d)
